@@ -411,6 +411,8 @@ func (r *registry) gql(t *Ty) graphql.Type {
 
 type world struct {
 	schema     *graphql.Schema
+	fDef, gDef *graphql.FieldDefinition
+	extra      []graphql.NamedType
 	hookCalls  int                  // invocations of InputCoercion hooks
 	fArgs      []hx.Sexp            // what f's resolver observed, per invocation
 	gRan       int                  // invocations of g's resolver
@@ -418,7 +420,7 @@ type world struct {
 	filterArgs map[string][]hx.Sexp // what each directive filter observed
 }
 
-func newWorld(p *pcase) (*world, error) {
+func newWorld(p *pcase, clone bool) (*world, error) {
 	w := &world{filterArgs: map[string][]hx.Sexp{}}
 	r := newRegistry()
 	r.onHook = func() { w.hookCalls++ }
@@ -495,7 +497,7 @@ func newWorld(p *pcase) (*world, error) {
 	for _, v := range p.varDefs {
 		collect(v.Ty)
 	}
-	s, err := graphql.NewSchema(&graphql.SchemaDefinition{
+	def := &graphql.SchemaDefinition{
 		Query: &graphql.ObjectType{Name: "Query", Fields: map[string]*graphql.FieldDefinition{"f": f, "g": g}},
 		Directives: map[string]*graphql.DirectiveDefinition{
 			"probe":   probe,
@@ -503,7 +505,13 @@ func newWorld(p *pcase) (*world, error) {
 			"include": wrap("include", graphql.IncludeDirective),
 		},
 		AdditionalTypes: extra,
-	})
+	}
+	w.fDef, w.gDef, w.extra = f, g, extra
+	if clone {
+		// what apifu does when Config.PreprocessGraphQLSchemaDefinition is set
+		def = def.Clone()
+	}
+	s, err := graphql.NewSchema(def)
 	if err != nil {
 		return nil, err
 	}
@@ -542,12 +550,17 @@ func errorTexts(errs []*graphql.Error) string {
 
 // runReal executes the case on the library.
 func runReal(c *Case) (o Observed, query, variables string, err error) {
+	return runRealMode(c, false)
+}
+
+// runRealMode: clone = the schema is built from SchemaDefinition.Clone().
+func runRealMode(c *Case, clone bool) (o Observed, query, variables string, err error) {
 	p, err := c.parse()
 	if err != nil {
 		return o, "", "", err
 	}
 	query, variables = p.queryText(), p.variablesText()
-	w, err := newWorld(p)
+	w, err := newWorld(p, clone)
 	if err != nil {
 		return o, query, variables, fmt.Errorf("schema rejected: %v", err)
 	}
